@@ -32,7 +32,8 @@ PROBES = {
             "exogenous_data", "stale_batch", "failed_call_injected", "unsorted_fh", "fh_as_index",
             "labels_after_stale_checked",
             "int_index_nonzero_origin", "negative_origin", "composite_depth2",
-            "tuned_forecaster", "same_integers_other_kind", "components_reused_elsewhere"],
+            "tuned_forecaster", "same_integers_other_kind", "components_reused_elsewhere",
+            "frozen_model_same_time_points_checked"],
 }
 FAULT_KINDS = {
     "C10": ["overlap_batch", "empty_batch", "pickle_roundtrip", "schedule_ooo",
@@ -98,7 +99,7 @@ def generate(prop, rng, tier):
         spec = {"kind": "gscv", "forecaster": dict(base, strategy="last", sp=1, window_length=None),
                 "cv": {"type": "sliding", "window": rng.choice([4, 5, 6]), "step": rng.choice([1, 2, 3]),
                        "fh": [1, 2]},
-                "grid": {"strategy": ["last", "mean", "drift"], "window_length": [3, 4]},
+                "grid": {"strategy": ["last", "mean", "drift"], "window_length": rng.choice([[3, 4], [None, 4]])},
                 "n_jobs": rng.choice([None, 2, 3]), "refit": True}
     if prop == "C10" and rng.random() < 0.06:
         # pipelines whose transformers keep what they learnt in fit (seasonal components
@@ -492,7 +493,7 @@ class Engine:
         self.note("fit", n0, fhs)
 
     def snapshot(self):
-        if self.prop != "C10":
+        if self.prop != "C10" and not _time_only(self.spec):
             return
         try:
             with peers.paused():
@@ -1049,7 +1050,27 @@ class Engine:
         if not isinstance(p, pd.Series):
             return
         fhs = {"steps": steps, "abs": False}
-        if self.refit_clean and self.updates_since_fit > 0 and C.refits_on_update(self.spec):
+        if self.spec["kind"] == "gscv" and self.refit_clean and self.updates_since_fit > 0 \
+                and C.refits_on_update(self.spec["forecaster"]):
+            # a tuned forecaster: after updates that refit, the forecasts are those of a fresh
+            # forecaster with the SAME best parameters fitted on everything seen
+            with peers.paused():
+                try:
+                    from sklearn.base import clone as _clone
+                    twin = _clone(a.f.best_forecaster_)
+                    fit_fh = _mk_fh(self.fit_fh, None, a.kind) if self.fit_fh else None
+                    twin.fit(a.seen_series(), fh=fit_fh)
+                    q = twin.predict(_mk_fh(fhs, None, a.kind))
+                except Exception as e:  # noqa
+                    self.note("twin_raised", type(e).__name__)
+                    return
+            self.res.probe("refit_equivalence_checked")
+            if not C.same_series(p, q):
+                self.v("refit_equivalence",
+                       "tuned forecaster after fit+update(s): predict(%s) gives %s, a fresh forecaster "
+                       "with the same best parameters fitted on all data seen gives %s" % (
+                           steps, C.fmt(p), C.fmt(q)), op="predict", tuned=True)
+        elif self.refit_clean and self.updates_since_fit > 0 and C.refits_on_update(self.spec):
             # fresh forecaster fitted once on everything seen
             with peers.paused():
                 try:
@@ -1117,30 +1138,41 @@ class Engine:
                        "fitted parameters changed although every update since the last fit had "
                        "update_params=False", op="update")
             elif _time_only(self.spec) and a.kind != "period":
-                # a model that is a function of (fitted parameters, time point) only: with the
-                # parameters frozen, the forecast for a time point is the one the forecaster as
-                # of its last fit makes for that same time point from its older cutoff
-                labels = [int(a.label(a.cut)) + int(s_) for s_ in steps]
-                with peers.paused():
-                    try:
-                        from sktime.forecasting.base import ForecastingHorizon
-                        g2 = pickle.loads(self.snap_refit)
-                        q2 = g2.predict(ForecastingHorizon(pd.Index(labels, dtype=np.int64),
-                                                           is_relative=False))
-                    except Exception as e:  # noqa
-                        self.note("abs_time_twin_raised", type(e).__name__)
-                        return
-                self.res.probe("frozen_model_same_time_points_checked")
-                if not C.same_series(p, q2):
-                    self.v("forecast_not_from_new_cutoff",
-                           "parameters frozen (update_params=False), cutoff moved to %s: predict(%s) "
-                           "gives %s for the time points %s; the forecaster as of its last fit gives "
-                           "%s for those time points" % (a.label(a.cut), steps, C.fmt(p), labels[:5],
-                                                         C.fmt(q2)), op="predict", after_update=True)
+                self.check_frozen_time_only(p, steps)
+
+    def check_frozen_time_only(self, p, steps):
+        """A model that is a function of (fitted parameters, time point) only: with the
+        parameters frozen, the forecast for a time point is the one the forecaster as of its
+        last fit makes for that same time point from its older cutoff."""
+        a = self.a
+        labels = [int(a.label(a.cut)) + int(s_) for s_ in steps]
+        with peers.paused():
+            try:
+                from sktime.forecasting.base import ForecastingHorizon
+                g2 = pickle.loads(self.snap_refit)
+                q2 = g2.predict(ForecastingHorizon(pd.Index(labels, dtype=np.int64),
+                                                   is_relative=False))
+            except Exception as e:  # noqa
+                self.note("abs_time_twin_raised", type(e).__name__)
+                return
+        self.res.probe("frozen_model_same_time_points_checked")
+        if not C.same_series(p, q2):
+            self.v("forecast_not_from_new_cutoff",
+                   "parameters frozen (update_params=False), cutoff moved to %s: predict(%s) "
+                   "gives %s for the time points %s; the forecaster as of its last fit gives "
+                   "%s for those time points" % (a.label(a.cut), steps, C.fmt(p), labels[:5],
+                                                 C.fmt(q2)), op="predict", after_update=True)
 
     # ---- C03 oracles
     def check_c03_prediction(self, i, p, ptw, steps, fhs):
         a, tw = self.a, self.tw
+        if self.snap_refit is not None and self.since_refit and not self.refit_clean \
+                and _time_only(self.spec) and a.kind != "period" and isinstance(p, pd.Series) \
+                and not self.after_upd and not self.stale_state:
+            # the value under a label must be the forecast FOR that time point
+            self.check_frozen_time_only(p, steps)
+            if self.res.violations:
+                return
         if self.updates_since_fit:
             self.res.probe("predict_after_update")
             self.checked_after_update += 1
